@@ -33,10 +33,25 @@ Fixpoint all_some {A} (l : list (option A)) : option (list A) :=
   | None :: _ => None
   end.
 
+(** * memory layouts of the query batch (harness: enum Lay).  All layouts present the same logical
+    matrix; the only place where the anchored code's arithmetic legitimately depends on the strides is
+    ndarray's row . vector product: contiguous rows go through unrolled_dot, others are folded in order *)
+Inductive layout := LStd | LFort | LRevRowsV | LRevRowsO | LRevColsV | LRevColsO | LStride2V.
+(* is a row of an (n, d) matrix in this layout a contiguous slice?  (column stride 1, or at most one element;
+   a single-row column-major matrix has unit strides as well) *)
+Definition rows_contig (l : layout) (n d : nat) : bool :=
+  Nat.leb d 1 || match l with
+                 | LStd | LRevRowsV | LRevRowsO => true
+                 | LFort => Nat.leb n 1
+                 | LRevColsV | LRevColsO | LStride2V => false
+                 end.
+Definition q_contig (l : layout) {A B} (Q : list (list A)) (w : list B) : bool := rows_contig l (length Q) (length w).
+
 (** * binary logistic regression *)
 Record bin_fit := {
   bf_w : list float; bf_b : float; bf_pos : lab; bf_neg : lab;
   bf_thr : float;
+  bf_qlay : layout;             (* memory layout of the query batch *)
   bf_Q : list (list float);
   bf_exp : list float;          (* Rust's exp(-(q.w + b)) per query row *)
   bf_prob : list float;         (* predict_probabilities *)
@@ -55,7 +70,7 @@ Definition bin_corr (c : bin_case) : N :=
   | inl TooFewClasses, None => flag (N.eqb (bc_err c) 1) 1
   | inl TooManyClasses, None => flag (N.eqb (bc_err c) 2) 1
   | inr bl, Some f =>
-      let zs := lin_pred o64 (bf_Q f) (bf_w f) (bf_b f) in
+      let zs := lin_pred_l o64 (q_contig (bf_qlay f) (bf_Q f) (bf_w f)) (bf_Q f) (bf_w f) (bf_b f) in
       let pm := map (logistic_of_exp o64) (bf_exp f) in
       (flag (lab_eqb (bl_pos bl) (bf_pos f) && lab_eqb (bl_neg bl) (bf_neg f) && N.eqb (bc_err c) 0) 1
        + flag (same_len zs (bf_exp f)
@@ -117,6 +132,7 @@ Definition logistic_close32 (p z : Q) : bool := close_i p (iv_eval prec [] (logi
 Record bin32_fit := {
   b3_w : list spec_float; b3_b : spec_float; b3_pos : lab; b3_neg : lab;
   b3_thr : spec_float;
+  b3_qlay : layout;
   b3_Q : list (list spec_float);
   b3_exp : list spec_float;     (* Rust's expf(-(q.w + b)) per query row *)
   b3_prob : list spec_float;    (* predict_probabilities *)
@@ -155,7 +171,7 @@ Definition bin32_corr (c : bin32_case) : N :=
   let f := b3c_fit c in
   match label_classes lab_eqb (b3c_labels c) with
   | inr bl =>
-      let zs := lin_pred o32 (b3_Q f) (b3_w f) (b3_b f) in
+      let zs := lin_pred_l o32 (q_contig (b3_qlay f) (b3_Q f) (b3_w f)) (b3_Q f) (b3_w f) (b3_b f) in
       let pm := map (logistic_of_exp o32) (b3_exp f) in
       (flag (lab_eqb (bl_pos bl) (b3_pos f) && lab_eqb (bl_neg bl) (b3_neg f)) 1
        + flag (same_len zs (b3_exp f)
@@ -268,6 +284,7 @@ Definition multi_oracle (c : multi_case) : N :=
 (** * Tweedie GLM *)
 Record glm_fit := {
   gf_w : list float; gf_b : float;
+  gf_qlay : layout;
   gf_Q : list (list float);
   gf_exp : list float;      (* Rust's exp(z) (log link) / exp(-z) (logit link); ignored for identity *)
   gf_pred : list float
@@ -293,7 +310,7 @@ Definition glm_corr (c : glm_case) : N :=
    + match gc_fit c with
      | None => 0
      | Some f =>
-         let zs := lin_pred o64 (gf_Q f) (gf_w f) (gf_b f) in
+         let zs := lin_pred_l o64 (q_contig (gf_qlay f) (gf_Q f) (gf_w f)) (gf_Q f) (gf_w f) (gf_b f) in
          flag (match l with
                | Identity => true
                | _ => same_len zs (gf_exp f)
